@@ -58,22 +58,23 @@ type holder struct {
 }
 
 type observer struct {
-	mu     sync.Mutex
-	e      *vlib.Env
-	dp     *router.VerifConcDP
-	base   uintptr
-	ready  chan struct{}
-	ids    map[uintptr]int
-	st     map[int]holder
-	trace  []string
-	viol   string
-	violK  string
-	tags   map[uint64]int // tag -> times written out
-	inj    map[uint64]bool
-	events int
-	bad    int
-	last   atomic.Int64 // unix nano of the last socket activity
-	counts map[string]int
+	mu       sync.Mutex
+	e        *vlib.Env
+	dp       *router.VerifConcDP
+	base     uintptr
+	ready    chan struct{}
+	ids      map[uintptr]int
+	st       map[int]holder
+	trace    []string
+	viol     string
+	violK    string
+	tags     map[uint64]int // tag -> times written out
+	inj      map[uint64]bool
+	events   int
+	bad      int
+	last     atomic.Int64 // unix nano of the last socket activity
+	counts   map[string]int
+	poolSize int
 }
 
 func (o *observer) id(b []byte) int {
@@ -132,6 +133,22 @@ func (o *observer) ev(kind string, c, b int) {
 		o.st[b] = holder{kind: 'f'}
 	case "release":
 		o.st[b] = holder{kind: 'f'}
+	}
+	// pool-level accounting: the buffers in the pool channel, those registered by receivers and
+	// those held by senders are pairwise disjoint, so together they never exceed the number of
+	// buffers that exist (a buffer returned while still held, or returned twice, breaks this)
+	if why == "" && o.poolSize > 0 {
+		held := 0
+		for _, h := range o.st {
+			if h.kind != 'f' {
+				held++
+			}
+		}
+		if pl := o.dp.PoolLen(); pl+held > o.poolSize && o.viol == "" {
+			o.viol = fmt.Sprintf("accounting: %d buffers in the pool + %d held at the sockets > %d buffers that exist", pl, held, o.poolSize)
+			o.violK = "accounting"
+		}
+		o.counts["accounting-check"]++
 	}
 	tag := kind
 	if why != "" {
@@ -499,6 +516,9 @@ func runScenario(e *vlib.Env, idx int, r *vlib.Rand) bool {
 	o.base = first[0]
 	close(o.ready)
 	poolSize := dp.PoolSize()
+	o.mu.Lock()
+	o.poolSize = poolSize
+	o.mu.Unlock()
 	conns := op.conns // internal first, then if1, if2 (creation order)
 	rep["connections"] = len(conns)
 	rep["pool_size"] = poolSize
@@ -535,6 +555,27 @@ func runScenario(e *vlib.Env, idx int, r *vlib.Rand) bool {
 			}
 			c.wpols = append(c.wpols, p)
 		}
+	}
+	// audit of the pool channel while traffic is flowing: what is in the pool must be there once
+	// and must not be held at a socket (checked while the packets are out of the pool, so that
+	// nobody can take them meanwhile)
+	midAudit := func() {
+		dp.PoolAuditWith(func(bufs []uintptr) {
+			o.mu.Lock()
+			defer o.mu.Unlock()
+			o.counts["mid-audit"]++
+			seen := map[uintptr]bool{}
+			for _, a := range bufs {
+				if seen[a] && o.viol == "" {
+					o.viol, o.violK = fmt.Sprintf("buffer %#x is in the pool twice (audit during traffic)", a), "double-put"
+				}
+				seen[a] = true
+				if id, ok := o.ids[a]; ok && o.st[id].kind != 'f' && o.viol == "" {
+					o.viol = fmt.Sprintf("buffer %d is in the pool while it is held at a socket (%c %d)", id, o.st[id].kind, o.st[id].c)
+					o.violK = "in-pool-while-held"
+				}
+			}
+		})
 	}
 	// traffic
 	tag := uint64(idx+1) << 32
@@ -578,6 +619,9 @@ func runScenario(e *vlib.Env, idx int, r *vlib.Rand) bool {
 			nInj++
 		}
 		conns[ci].feed <- in
+		if k%16 == 15 {
+			midAudit()
+		}
 		if r.Chance(30) {
 			time.Sleep(time.Duration(r.Range(0, 400)) * time.Microsecond)
 		}
